@@ -8,7 +8,8 @@ pub const ZINC_TOKENS: [&str; 46] = [
     "C(", ")", "(", "X(\"", "2021-01-01", "T00:00:00", "Z", "+10:00 ", "12:", ".", "_", "INF", "-INF", "NaN", " ", "a", "\u{e9}",
 ];
 
-pub const FILTER_TOKENS: [&str; 36] = [
+pub const FILTER_TOKENS: [&str; 39] = [
+    "\u{c}", "\u{b}", "\u{0}",
     "(", ")", " and ", " or ", "not ", "==", "!=", "<", "<=", ">", ">=", "->", "*==", "?", "^", "@", "\"", "`", "-", "1", "a", "true", "false",
     " ", "\n", "\\", "2021-01-01", "12:00:00", "T", "Z", "kW", "%", "=", "!", "*", "\u{e9}",
 ];
